@@ -94,6 +94,11 @@ def run(repo, chk):
         # calls, so its absence does not make the handler dead) - the 32x32 tabulation of C16.E1 decides it
         from . import c16
         c16.run(repo, Remap(chk, {'C16.E1': 'C02.T10'}))
+        # `a ?? b` hands its result over with accessor moves (value.to(r_out)): what get / set / to emit, interpreted for
+        # every accessor class (shared with the rendering tabulation of C09.M1)
+        from .c09 import rendering
+        rendering(repo, Remap(chk, {'C09.M1': lambda c: 'C02.T6' if c.startswith('asm.') and any(
+            c.endswith(x) or (x + ' ') in c for x in ('.to', '.get', '.set')) else None}), 'C09.M1')
 
     # ------------------------------------------------------------------ try arms
     tp = arm_paths(gf, 'gen_block', 'TryBlock')
